@@ -12,6 +12,7 @@
 //! Model stream: the dimension of every raw unit is also computed by the Lean model (`dim <unit>` requests).
 
 use numbat::resolver::CodeSource;
+use numbat::verif::c03::show_quantity;
 use numbat::{NumbatError, RuntimeErrorKind};
 use nvh::qty::*;
 use nvh::*;
@@ -409,6 +410,8 @@ fn classify(stmts: &[String]) -> &'static str {
     let code = stmts.join("\n");
     // known defect families, identified by the construct that triggers them
     if code.contains("inf") || code.contains("NaN") { return "c01:poly-nonfinite"; }
+    // a conversion whose target is the polymorphic zero: `1 m -> 0` is accepted and fails at run time
+    if code.contains("-> 0)") || code.contains("-> 0.0)") || code.ends_with("-> 0") { return "c01:convert-to-zero"; }
     if code.contains("0.1+0.2") || code.contains("0.1 + 0.2") || code.contains("0.7+0.1") || code.contains("0.3*3") { return "c01:exponent-approx"; }
     "c01:unsound"
 }
@@ -434,7 +437,9 @@ fn judge(ctx: &numbat::Context, units: &Units, out: &mut Out, stmts: &[String], 
         let o2 = run_program(ctx, &small, checked);
         let what = if !o2.problems.is_empty() { o2.problems.join(" | ") } else { o2.error.clone() };
         let input = format!("prog {}", small.join(" ;; "));
-        out.oracle_fail(&format!("{}:{}", classify(&small), input), &input, &what);
+        // (a failure of the model stream that was traced to a polymorphic zero meeting a NaN/infinity at run time)
+        let class = if tags.iter().any(|t| t == "zero-nonfinite") && o2.error.starts_with("runtime-incompatible") && classify(&small) == "c01:unsound" { "c01:zero-nonfinite" } else { classify(&small) };
+        out.oracle_fail(&format!("{}:{}", class, input), &input, &what);
     }
     // model stream: the base-unit representation (dimension vector in canonical form) of every raw unit, as
     // the Lean model computes it from the unit table, against the implementation's
@@ -451,10 +456,461 @@ fn judge(ctx: &numbat::Context, units: &Units, out: &mut Out, stmts: &[String], 
     }
 }
 
+
+// ------------------------------------------------------------------ model stream `mprog`
+//
+// Programs in the fragment of lean/NumbatModel/Model/QtyProg.lean (the fragment of the theorem
+// `program_soundness`): `let` definitions over numbers, units, earlier globals, + - * / neg, constant powers,
+// conversions to unit expressions, comparisons, boolean logic and conditionals.  Each definition is given to the
+// real interpreter as its own input, the raw value of the new global is read back (hook) and must equal, bit
+// for bit, what the model computes for the same program; the program text also goes through `judge` (raw value
+// against static type, kind of run-time failure).
+
+#[derive(Clone, Debug)]
+enum P {
+    Num(f64),
+    Unit(usize, (bool, i32), String),
+    Var(usize, String),
+    Neg(Box<P>),
+    Bin(&'static str, Box<P>, Box<P>), // add sub mul div conv lt gt le ge eq ne and or
+    Pow(Box<P>, i128, i128),
+    Not(Box<P>),
+    Bool(bool),
+    If(Box<P>, Box<P>, Box<P>),
+    /// parameter of the enclosing function
+    Loc(usize, String),
+    /// call of the user function with that index
+    Call(usize, String, Vec<P>),
+}
+
+/// a top-level definition
+#[derive(Clone, Debug)]
+enum D {
+    Let(String, P),
+    Fn(String, Vec<String>, P),
+}
+
+#[derive(Clone, Debug, PartialEq)]
+enum MTy { Dim(String), Scalar, Bool }
+
+impl P {
+    fn src(&self) -> String { self.src_with(&[]) }
+    /// source text; parameter `i` is written as `subst[i]` if there is one (used by the probe below)
+    fn src_with(&self, subst: &[String]) -> String {
+        match self {
+            P::Num(v) => num_src(*v),
+            P::Unit(_, _, s) => s.clone(),
+            P::Var(_, n) => n.clone(),
+            P::Neg(a) => format!("(-{})", a.src_with(subst)),
+            P::Bin(op, a, b) => {
+                let o = match *op { "add" => "+", "sub" => "-", "mul" => "*", "div" => "/", "conv" => "->", "lt" => "<", "gt" => ">", "le" => "<=", "ge" => ">=", "eq" => "==", "ne" => "!=", "and" => "&&", _ => "||" };
+                format!("({} {} {})", a.src_with(subst), o, b.src_with(subst))
+            }
+            P::Pow(a, n, d) => if *d == 1 { format!("({}^({}))", a.src_with(subst), n) } else { format!("({}^({}/{}))", a.src_with(subst), n, d) },
+            P::Not(a) => format!("(!{})", a.src_with(subst)),
+            P::Bool(b) => b.to_string(),
+            P::If(c, t, e) => format!("(if {} then {} else {})", c.src_with(subst), t.src_with(subst), e.src_with(subst)),
+            P::Loc(i, n) => subst.get(*i).cloned().unwrap_or_else(|| n.clone()),
+            P::Call(_, n, args) => format!("{}({})", n, args.iter().map(|a| a.src_with(subst)).collect::<Vec<_>>().join(", ")),
+        }
+    }
+    fn sexpr(&self, units: &Units) -> String {
+        match self {
+            P::Num(v) => format!("(num {})", fb(*v)),
+            P::Unit(i, p, _) => format!("(unit {}:{}{}:1/1)", units.rows[*i].name, if p.0 { "b" } else { "m" }, p.1),
+            P::Var(i, _) => format!("(var {})", i),
+            P::Neg(a) => format!("(neg {})", a.sexpr(units)),
+            P::Bin(op, a, b) => format!("({} {} {})", op, a.sexpr(units), b.sexpr(units)),
+            P::Pow(a, n, d) => format!("(pow {} {}/{})", a.sexpr(units), n, d),
+            P::Not(a) => format!("(not {})", a.sexpr(units)),
+            P::Bool(b) => format!("({})", b),
+            P::If(c, t, e) => format!("(if {} {} {})", c.sexpr(units), t.sexpr(units), e.sexpr(units)),
+            P::Loc(i, _) => format!("(loc {})", i),
+            P::Call(f, _, args) => {
+                let chain = args.iter().rev().fold("(noarg)".to_string(), |acc, a| format!("(arg {} {})", a.sexpr(units), acc));
+                format!("(call {} {})", f, chain)
+            }
+        }
+    }
+    fn count_nodes(&self, out: &mut Out) {
+        let k = match self {
+            P::Num(_) => "num", P::Unit(..) => "unit", P::Var(..) => "var", P::Neg(_) => "neg", P::Bin(op, ..) => op,
+            P::Pow(..) => "pow", P::Not(_) => "not", P::Bool(_) => "bool", P::If(..) => "if",
+            P::Loc(..) => "loc", P::Call(..) => "call",
+        };
+        out.count(&format!("mprog_node:{}", k));
+        match self {
+            P::Neg(a) | P::Pow(a, _, _) | P::Not(a) => a.count_nodes(out),
+            P::Bin(_, a, b) => { a.count_nodes(out); b.count_nodes(out); }
+            P::If(c, t, e) => { c.count_nodes(out); t.count_nodes(out); e.count_nodes(out); }
+            P::Call(_, _, args) => { for a in args { a.count_nodes(out); } }
+            _ => {}
+        }
+    }
+}
+
+struct MGen<'a> {
+    units: &'a Units,
+    dims: Vec<&'a String>,
+    vars: Vec<(String, MTy)>,
+    /// parameters of the function whose body is being generated
+    locals: Vec<(String, MTy)>,
+    /// user functions defined so far: name, parameter types, result type
+    fns: Vec<(String, Vec<MTy>, MTy)>,
+}
+
+fn bx(p: P) -> Box<P> { Box::new(p) }
+
+impl<'a> MGen<'a> {
+    fn leaf_unit(&self, rng: &mut Rng, dim: &String) -> P {
+        let rows = &self.units.by_dim[dim];
+        let i = *rng.pick(rows);
+        let ps = self.units.prefixes(i);
+        let mut p = if rng.chance(1, 2) { (false, 0) } else { *rng.pick(&ps) };
+        let mut sp = self.units.spellings(i, p);
+        if sp.is_empty() {
+            p = (false, 0);
+            sp = self.units.spellings(i, p);
+        }
+        P::Unit(i, p, rng.pick(&sp).clone())
+    }
+    fn number(&self, rng: &mut Rng) -> f64 {
+        match rng.below(10) {
+            0 => 0.0,
+            1 => 2f64.powi(rng.range(-20, 20) as i32),
+            2 | 3 => rng.range(-20, 20) as f64,
+            4 => 40.5,
+            5 => 10f64.powi(rng.range(-9, 9) as i32) * (1.0 + rng.below(9) as f64),
+            _ => ((rng.unit_f64() * 200.0 - 100.0) * 64.0).round() / 64.0,
+        }
+    }
+    fn var_of(&self, rng: &mut Rng, t: &MTy) -> Option<P> {
+        // parameters first (two times out of three when there is one of the type)
+        let l: Vec<usize> = (0..self.locals.len()).filter(|i| &self.locals[*i].1 == t).collect();
+        if !l.is_empty() && rng.chance(2, 3) { let i = *rng.pick(&l); return Some(P::Loc(i, self.locals[i].0.clone())); }
+        let c: Vec<usize> = (0..self.vars.len()).filter(|i| &self.vars[*i].1 == t).collect();
+        if c.is_empty() { None } else { let i = *rng.pick(&c); Some(P::Var(i, self.vars[i].0.clone())) }
+    }
+    /// a call of a user function with result type `t`, if there is one
+    fn call_of(&self, rng: &mut Rng, t: &MTy, depth: usize) -> Option<P> {
+        let c: Vec<usize> = (0..self.fns.len()).filter(|i| &self.fns[*i].2 == t).collect();
+        if c.is_empty() { return None; }
+        let f = *rng.pick(&c);
+        let (name, params, _) = self.fns[f].clone();
+        let args: Vec<P> = params.iter().map(|pt| self.of_ty(rng, pt, depth)).collect();
+        Some(P::Call(f, name, args))
+    }
+    fn of_ty(&self, rng: &mut Rng, t: &MTy, depth: usize) -> P {
+        match t {
+            MTy::Dim(d) => self.of_dim(rng, d, depth),
+            MTy::Scalar => self.scalar(rng, depth),
+            MTy::Bool => self.cond(rng, depth),
+        }
+    }
+    /// a unit expression (no numbers) of the dimension class `dim`
+    fn unit_expr(&self, rng: &mut Rng, dim: &String) -> P {
+        let u = self.leaf_unit(rng, dim);
+        match rng.below(6) {
+            0 => {
+                let d2 = *rng.pick(&self.dims);
+                P::Bin("mul", bx(u), bx(P::Bin("div", bx(self.leaf_unit(rng, d2)), bx(self.leaf_unit(rng, d2)))))
+            }
+            1 => {
+                let d2 = *rng.pick(&self.dims);
+                P::Bin("div", bx(P::Bin("mul", bx(u), bx(self.leaf_unit(rng, d2)))), bx(self.leaf_unit(rng, d2)))
+            }
+            2 => P::Bin("div", bx(P::Pow(bx(u), 2, 1)), bx(self.leaf_unit(rng, dim))),
+            _ => u,
+        }
+    }
+    fn of_dim(&self, rng: &mut Rng, dim: &String, depth: usize) -> P {
+        let t = MTy::Dim(dim.clone());
+        if depth > 0 && rng.chance(1, 6) {
+            if let Some(c) = self.call_of(rng, &t, depth - 1) { return c; }
+        }
+        if depth == 0 || rng.chance(1, 4) {
+            if rng.chance(1, 3) || (!self.locals.is_empty() && rng.chance(1, 2)) {
+                if let Some(v) = self.var_of(rng, &t) { return v; }
+            }
+            if rng.chance(1, 16) { return P::Num(0.0); }
+            return P::Bin("mul", bx(P::Num(self.number(rng))), bx(self.leaf_unit(rng, dim)));
+        }
+        let d = depth - 1;
+        match rng.below(12) {
+            0 | 1 => P::Bin("add", bx(self.of_dim(rng, dim, d)), bx(self.of_dim(rng, dim, d))),
+            2 | 3 => P::Bin("sub", bx(self.of_dim(rng, dim, d)), bx(self.of_dim(rng, dim, d))),
+            4 => P::Neg(bx(self.of_dim(rng, dim, d))),
+            5 => P::Bin("mul", bx(self.scalar(rng, d)), bx(self.of_dim(rng, dim, d))),
+            6 => P::Bin("div", bx(self.of_dim(rng, dim, d)), bx(self.scalar(rng, d))),
+            7 | 8 => {
+                // one target in forty is the literal `0` (outside the fragment: known finding C01-convert-to-zero)
+                let target = if rng.chance(1, 40) { P::Num(0.0) } else { self.unit_expr(rng, dim) };
+                P::Bin("conv", bx(self.of_dim(rng, dim, d)), bx(target))
+            }
+            9 => P::If(bx(self.cond(rng, d)), bx(self.of_dim(rng, dim, d)), bx(self.of_dim(rng, dim, d))),
+            10 => P::Bin("div", bx(P::Pow(bx(self.of_dim(rng, dim, d)), 2, 1)), bx(self.of_dim(rng, dim, d))),
+            _ => P::Pow(bx(P::Bin("mul", bx(self.of_dim(rng, dim, d)), bx(self.of_dim(rng, dim, d)))), 1, 2),
+        }
+    }
+    fn scalar(&self, rng: &mut Rng, depth: usize) -> P {
+        if depth > 0 && rng.chance(1, 8) {
+            if let Some(c) = self.call_of(rng, &MTy::Scalar, depth - 1) { return c; }
+        }
+        if depth == 0 || rng.chance(1, 3) {
+            if rng.chance(1, 3) || (!self.locals.is_empty() && rng.chance(1, 2)) {
+                if let Some(v) = self.var_of(rng, &MTy::Scalar) { return v; }
+            }
+            return P::Num(self.number(rng));
+        }
+        let d = depth - 1;
+        match rng.below(6) {
+            0 | 1 => {
+                let dm = *rng.pick(&self.dims);
+                P::Bin("div", bx(self.of_dim(rng, dm, d)), bx(self.of_dim(rng, dm, d)))
+            }
+            2 => P::Bin("add", bx(self.scalar(rng, d)), bx(self.scalar(rng, d))),
+            3 => P::Bin("mul", bx(self.scalar(rng, d)), bx(self.scalar(rng, d))),
+            4 => P::If(bx(self.cond(rng, d)), bx(self.scalar(rng, d)), bx(self.scalar(rng, d))),
+            _ => P::Pow(bx(self.scalar(rng, d)), *rng.pick(&[2, 3, -1, -2]), 1),
+        }
+    }
+    fn cond(&self, rng: &mut Rng, depth: usize) -> P {
+        if depth > 0 && rng.chance(1, 4) {
+            let d = depth - 1;
+            return match rng.below(3) {
+                0 => P::Bin("and", bx(self.cond(rng, d)), bx(self.cond(rng, d))),
+                1 => P::Bin("or", bx(self.cond(rng, d)), bx(self.cond(rng, d))),
+                _ => P::Not(bx(self.cond(rng, d))),
+            };
+        }
+        if rng.chance(1, 8) {
+            if let Some(v) = self.var_of(rng, &MTy::Bool) { return v; }
+            return P::Bool(rng.chance(1, 2));
+        }
+        let op = *rng.pick(&["lt", "gt", "le", "ge", "eq", "ne"]);
+        let d = depth.saturating_sub(1);
+        if rng.chance(1, 4) {
+            P::Bin(op, bx(self.scalar(rng, d)), bx(self.scalar(rng, d)))
+        } else {
+            let dm = *rng.pick(&self.dims);
+            P::Bin(op, bx(self.of_dim(rng, dm, d)), bx(self.of_dim(rng, dm, d)))
+        }
+    }
+}
+
+fn parse_p(units: &Units, names: &[String], toks: &mut std::iter::Peekable<std::vec::IntoIter<String>>) -> Option<P> {
+    if toks.next()? != "(" { return None; }
+    let head = toks.next()?;
+    let e = match head.as_str() {
+        "num" => P::Num(bits_f(&toks.next()?)),
+        "unit" => {
+            let f = parse_factor(&toks.next()?)?;
+            let i = *units.index.get(&f.unit)?;
+            let p = (f.binary, f.prefix_exp);
+            let sp = units.spellings(i, p);
+            P::Unit(i, p, sp.first()?.clone())
+        }
+        "var" => { let i: usize = toks.next()?.parse().ok()?; P::Var(i, names.get(i)?.clone()) }
+        "loc" => { let i: usize = toks.next()?.parse().ok()?; P::Loc(i, format!("zp{}", i)) }
+        "call" => {
+            let f: usize = toks.next()?.parse().ok()?;
+            // the argument chain `(arg E (arg E (noarg)))`
+            let mut args = Vec::new();
+            let mut closes = 0;
+            loop {
+                if toks.next()? != "(" { return None; }
+                match toks.next()?.as_str() {
+                    "noarg" => { if toks.next()? != ")" { return None; } break; }
+                    "arg" => { args.push(parse_p(units, names, toks)?); closes += 1; }
+                    _ => return None,
+                }
+            }
+            for _ in 0..closes { if toks.next()? != ")" { return None; } }
+            P::Call(f, format!("zf{}", f), args)
+        }
+        "true" => P::Bool(true),
+        "false" => P::Bool(false),
+        "neg" => P::Neg(bx(parse_p(units, names, toks)?)),
+        "not" => P::Not(bx(parse_p(units, names, toks)?)),
+        "pow" => {
+            let a = parse_p(units, names, toks)?;
+            let r = toks.next()?;
+            let (n, d) = r.split_once('/')?;
+            P::Pow(bx(a), n.parse().ok()?, d.parse().ok()?)
+        }
+        "if" => {
+            let c = parse_p(units, names, toks)?;
+            let t = parse_p(units, names, toks)?;
+            let e = parse_p(units, names, toks)?;
+            P::If(bx(c), bx(t), bx(e))
+        }
+        op => {
+            let a = parse_p(units, names, toks)?;
+            let b = parse_p(units, names, toks)?;
+            let op: &'static str = ["add", "sub", "mul", "div", "conv", "lt", "gt", "le", "ge", "eq", "ne", "and", "or"].iter().find(|o| **o == op).copied()?;
+            P::Bin(op, bx(a), bx(b))
+        }
+    };
+    if toks.next()? != ")" { return None; }
+    Some(e)
+}
+
+/// `mprog (let E) (fn N E) …` back into a program (replay / corpus); globals are named g0, g1, …, functions zf0, …
+fn parse_mprog(units: &Units, line: &str) -> Option<Vec<D>> {
+    let body = line.strip_prefix("mprog ")?;
+    let body = body.split(" ## ").next()?;
+    let spaced = body.replace('(', " ( ").replace(')', " ) ");
+    let toks: Vec<String> = spaced.split_whitespace().map(|s| s.to_string()).collect();
+    let mut it = toks.into_iter().peekable();
+    let mut prog = Vec::new();
+    let mut names: Vec<String> = Vec::new();
+    let mut nf = 0;
+    while it.peek().is_some() {
+        if it.next()? != "(" { return None; }
+        match it.next()?.as_str() {
+            "let" => {
+                let e = parse_p(units, &names, &mut it)?;
+                let n = format!("g{}", names.len());
+                names.push(n.clone());
+                prog.push(D::Let(n, e));
+            }
+            "fn" => {
+                let k: usize = it.next()?.parse().ok()?;
+                let e = parse_p(units, &names, &mut it)?;
+                prog.push(D::Fn(format!("zf{}", nf), (0..k).map(|i| format!("zp{}", i)).collect(), e));
+                nf += 1;
+            }
+            _ => return None,
+        }
+        if it.next()? != ")" { return None; }
+    }
+    Some(prog)
+}
+
+/// Does evaluating `e` (in the session `c`, parameters replaced by the globals `subst`) produce a NaN or an
+/// infinity in some sub-expression?  Every sub-expression is given to the interpreter on its own; a
+/// conditional is followed into the branch taken, a call into the body with the arguments bound to fresh
+/// globals.  Used only to classify a run-time failure (known finding C01-zero-nonfinite).
+fn probe_nonfinite(c: &numbat::Context, e: &P, subst: &[String], fns: &[(Vec<String>, P)], budget: &mut usize) -> bool {
+    if *budget == 0 { return false; }
+    *budget -= 1;
+    let eval_q = |c: &numbat::Context, src: &str| -> Option<f64> {
+        let mut c2 = c.clone();
+        let r = catch(std::panic::AssertUnwindSafe(|| c2.interpret(&format!("let zq_probe = {}", src), CodeSource::Internal).map(|_| ())));
+        match r { Ok(Ok(())) => c2.verif_raw_global_quantity("zq_probe").map(|q| f64::from_bits(q.bits)), _ => None }
+    };
+    let children: Vec<&P> = match e {
+        P::Neg(a) | P::Pow(a, _, _) | P::Not(a) => vec![a],
+        P::Bin(_, a, b) => vec![a, b],
+        P::If(c0, t, f) => {
+            let taken = eval_q(c, &format!("if {} then 1 else 0", c0.src_with(subst)));
+            match taken { Some(v) if v == 1.0 => vec![c0, t], Some(_) => vec![c0, f], None => vec![c0] }
+        }
+        P::Call(_, _, args) => args.iter().collect(),
+        _ => vec![],
+    };
+    for ch in children {
+        if probe_nonfinite(c, ch, subst, fns, budget) { return true; }
+    }
+    if let P::Call(f, _, args) = e {
+        if let Some((_, body)) = fns.get(*f) {
+            let mut c2 = c.clone();
+            let mut names = Vec::new();
+            for (i, a) in args.iter().enumerate() {
+                let n = format!("zq_arg_{}_{}", *budget, i);
+                let r = catch(std::panic::AssertUnwindSafe(|| c2.interpret(&format!("let {} = {}", n, a.src_with(subst)), CodeSource::Internal).map(|_| ())));
+                if !matches!(r, Ok(Ok(()))) { return false; }
+                names.push(n);
+            }
+            if probe_nonfinite(&c2, body, &names, fns, budget) { return true; }
+        }
+    }
+    match eval_q(c, &e.src_with(subst)) { Some(v) => !v.is_finite(), None => false }
+}
+
+/// one program through the interpreter, definition by definition; the answer line of the implementation
+fn run_mprog(ctx: &numbat::Context, units: &Units, out: &mut Out, prog: &[D]) {
+    let req = format!("mprog {}", prog.iter().map(|d| match d {
+        D::Let(_, e) => format!("(let {})", e.sexpr(units)),
+        D::Fn(_, ps, e) => format!("(fn {} {})", ps.len(), e.sexpr(units)),
+    }).collect::<Vec<_>>().join(" "));
+    let mut c = ctx.clone();
+    let mut answers: Vec<String> = Vec::new();
+    let mut stmts: Vec<String> = Vec::new();
+    for d in prog {
+        let (name, code) = match d {
+            D::Let(name, e) => (Some(name), format!("let {} = {}", name, e.src())),
+            D::Fn(name, ps, e) => (None, format!("fn {}({}) = {}", name, ps.join(", "), e.src())),
+        };
+        stmts.push(code.clone());
+        let res = catch(std::panic::AssertUnwindSafe(|| c.interpret(&code, CodeSource::Internal).map(|_| ())));
+        match res {
+            Err(p) => { answers.push(format!("panic {}", p)); break; }
+            Ok(Ok(())) => match name {
+                None => answers.push("fn".into()),
+                Some(name) => match c.verif_raw_global_quantity(name) {
+                    // (the conversion target kept for display, `… -> q …`, is not part of the model's quantity)
+                    Some(q) => answers.push(canon_nan(show_quantity(&q).split(" -> ").next().unwrap_or(""))),
+                    None => answers.push("bool".into()),
+                },
+            },
+            Ok(Err(err)) => {
+                match *err {
+                    NumbatError::RuntimeError(ref r) => {
+                        let t = format!("{}", r);
+                        answers.push(if t.contains("Division by zero") { "err divzero".into() }
+                            else if t.contains("can not be converted") { "err incompatible".into() }
+                            else if t.contains("Non-rational") { "err nonrational".into() }
+                            else { format!("err runtime {}", t).replace('\n', " ") });
+                    }
+                    _ => {
+                        // the generator produced something the checker rejects: not a case
+                        out.count("mprog_generator_rejected");
+                        return;
+                    }
+                }
+                break;
+            }
+        }
+    }
+    out.line(&req, &answers.join(" ; "));
+    out.count("mprog_programs");
+    let last = answers.last().cloned().unwrap_or_default();
+    out.count(&format!("mprog_outcome:{}", if last.starts_with("err") || last.starts_with("panic") { last.split(' ').take(2).collect::<Vec<_>>().join("_") } else { "ok".to_string() }));
+    for d in prog { match d { D::Let(_, e) | D::Fn(_, _, e) => e.count_nodes(out) } }
+    out.count_n("mprog_functions", prog.iter().filter(|d| matches!(d, D::Fn(..))).count() as u64);
+    let checked: Vec<String> = prog.iter().filter_map(|d| if let D::Let(n, _) = d { Some(n.clone()) } else { None }).collect();
+    let mut tags = vec!["mprog".to_string()];
+    if last == "err incompatible" {
+        // classification of the failure: does the program rely on a polymorphic zero (with every `0.0` replaced by
+        // `1.0` the checker rejects it) that met a NaN/infinity at run time (some sub-expression of the failing
+        // definition evaluates to a non-finite value)?
+        let relies_on_zero = {
+            let mut c2 = ctx.clone();
+            let code = stmts.join("\n").replace("0.0", "1.0");
+            matches!(catch(std::panic::AssertUnwindSafe(|| c2.interpret(&code, CodeSource::Internal).map(|_| ()))), Ok(Err(e)) if matches!(*e, NumbatError::TypeCheckError(_)))
+        };
+        if relies_on_zero {
+            let k = answers.len() - 1;
+            let mut c2 = ctx.clone();
+            let mut fns: Vec<(Vec<String>, P)> = Vec::new();
+            for (d, code) in prog.iter().zip(stmts.iter()).take(k) {
+                let _ = catch(std::panic::AssertUnwindSafe(|| c2.interpret(code, CodeSource::Internal).map(|_| ())));
+                if let D::Fn(_, ps, b) = d { fns.push((ps.clone(), b.clone())); }
+            }
+            if let Some(D::Let(_, e)) = prog.get(k) {
+                let mut budget = 400;
+                if probe_nonfinite(&c2, e, &[], &fns, &mut budget) { tags.push("zero-nonfinite".to_string()); }
+            }
+        }
+    }
+    judge(ctx, units, out, &stmts, &checked, &tags);
+}
+
 fn main() {
     let args = Args::parse();
     let mut out = Out::new(&args);
-    out.rule = "multi-statement programs (3-10 statements) generated type-directed over the prelude: let-bindings of expression trees (units in any alias/prefix spelling, + - * / neg, conversions, conditionals with comparisons incl. a polymorphic zero on either side, references to earlier globals, calls), powers with compile-time evaluated exponents (integer, fractional, composite arithmetic) followed by an addition at the statically computed exponent, inferred and annotated generic functions, where-clauses, generic structs with field access, lists with head/sum/maximum/mean/map/element_at, dimension and derived-unit definitions with annotated lets; plus the corpus (known-defect shapes). distinct = program text; non-trivial = at least two statements and accepted by the checker".into();
+    out.rule = "stream `mprog`: programs of 2-8 let/fn definitions in the fragment of program_soundness (expressions over numbers, units in any spelling, earlier globals, parameters, + - * / neg, constant powers, conversions to unit expressions — one target in forty is the literal 0 —, comparisons, && || !, conditionals, calls of 1-3-parameter user functions, one function in three recursive over a small counter), run definition by definition, raw value of every new global compared bit for bit with the Lean model, and judged by the same oracle as: multi-statement programs (3-10 statements) generated type-directed over the prelude: let-bindings of expression trees (units in any alias/prefix spelling, + - * / neg, conversions, conditionals with comparisons incl. a polymorphic zero on either side, references to earlier globals, calls), powers with compile-time evaluated exponents (integer, fractional, composite arithmetic) followed by an addition at the statically computed exponent, inferred and annotated generic functions, where-clauses, generic structs with field access, lists with head/sum/maximum/mean/map/element_at, dimension and derived-unit definitions with annotated lets; plus the corpus (known-defect shapes). distinct = program text; non-trivial = at least two statements and accepted by the checker".into();
     let ctx = prelude_ctx();
     let units = Units::load(&ctx);
     units.emit(&mut out);
@@ -474,6 +930,11 @@ fn main() {
         }
     }
     let run_line = |l: &str, out: &mut Out| {
+        if l.starts_with("mprog ") {
+            if let Some(prog) = parse_mprog(&units, l) {
+                run_mprog(&ctx, &units, out, &prog);
+            }
+        }
         if let Some(rest) = l.strip_prefix("prog ") {
             let stmts: Vec<String> = rest.split(" ;; ").map(|s| s.to_string()).collect();
             let checked: Vec<String> = stmts.iter().filter_map(|s| s.strip_prefix("let ").map(|r| r.split(|c| c == ':' || c == ' ' || c == '=').next().unwrap_or("").to_string())).collect();
@@ -502,6 +963,76 @@ fn main() {
         tags.sort();
         tags.dedup();
         judge(&ctx, &units, &mut out, &stmts, &checked, &tags);
+    }
+    // model stream: programs in the fragment of `program_soundness`
+    let nm = args.count(400, 20000);
+    for k in 0..nm {
+        let mut g = MGen { units: &units, dims: dims.clone(), vars: vec![], locals: vec![], fns: vec![] };
+        let len = 2 + rng.below(6);
+        let mut prog: Vec<D> = Vec::new();
+        for j in 0..len {
+            let depth = 1 + (k + j) % 4;
+            // the type of the definition: half of them reuse the dimension of an earlier global
+            let pick_ty = |g: &MGen, rng: &mut Rng| -> MTy {
+                match rng.below(8) {
+                    0 => MTy::Bool,
+                    1 | 2 => MTy::Scalar,
+                    _ => {
+                        let earlier: Vec<String> = g.vars.iter().filter_map(|(_, t)| if let MTy::Dim(d) = t { Some(d.clone()) } else { None }).collect();
+                        if !earlier.is_empty() && rng.chance(1, 2) { MTy::Dim(rng.pick(&earlier).clone()) } else { MTy::Dim((*rng.pick(&g.dims)).clone()) }
+                    }
+                }
+            };
+            if rng.chance(1, 4) {
+                // a function of 1-3 parameters; one in three is recursive over a scalar counter
+                let f = g.fns.len();
+                let name = format!("zf{}", f);
+                let ret = pick_ty(&g, &mut rng);
+                let recursive = rng.chance(1, 3);
+                let np = 1 + rng.below(3);
+                let mut ptys: Vec<MTy> = (0..np).map(|_| if rng.chance(1, 2) { ret.clone() } else { pick_ty(&g, &mut rng) }).collect();
+                if recursive { ptys[0] = MTy::Scalar; }
+                let pnames: Vec<String> = (0..np).map(|i| format!("zp{}", i)).collect();
+                g.locals = pnames.iter().cloned().zip(ptys.iter().cloned()).collect();
+                let body = if recursive {
+                    // if zp0 <= 0 then <base> else zfK(zp0 - 1, <args>)
+                    let base = g.of_ty(&mut rng, &ret, depth.min(2));
+                    let mut cargs = vec![P::Bin("sub", bx(P::Loc(0, "zp0".into())), bx(P::Num(1.0)))];
+                    for t in ptys.iter().skip(1) { cargs.push(g.of_ty(&mut rng, t, 1)); }
+                    let step = P::Call(f, name.clone(), cargs);
+                    let wrapped = match &ret {
+                        MTy::Bool => P::Not(bx(step)),
+                        MTy::Scalar => P::Bin("add", bx(step), bx(P::Num(1.0))),
+                        MTy::Dim(_) => P::Bin("add", bx(step), bx(base.clone())),
+                    };
+                    P::If(bx(P::Bin("le", bx(P::Loc(0, "zp0".into())), bx(P::Num(0.0)))), bx(base), bx(wrapped))
+                } else {
+                    g.of_ty(&mut rng, &ret, depth)
+                };
+                g.locals = vec![];
+                g.fns.push((name.clone(), ptys, ret));
+                prog.push(D::Fn(name, pnames, body));
+                if recursive {
+                    // a recursive function is called with a small counter only (so that every run terminates)
+                    let (_, ptys, ret) = g.fns[f].clone();
+                    // calls generated from now on could pass an arbitrary scalar as the counter: take the function
+                    // out of the pool
+                    g.fns[f].2 = MTy::Dim("<never>".into());
+                    let mut cargs = vec![P::Num(rng.below(4) as f64)];
+                    for t in ptys.iter().skip(1) { cargs.push(g.of_ty(&mut rng, t, 1)); }
+                    let gname = format!("g{}", g.vars.len());
+                    g.vars.push((gname.clone(), ret));
+                    prog.push(D::Let(gname, P::Call(f, format!("zf{}", f), cargs)));
+                }
+            } else {
+                let t = pick_ty(&g, &mut rng);
+                let e = g.of_ty(&mut rng, &t, depth);
+                let name = format!("g{}", g.vars.len());
+                g.vars.push((name.clone(), t));
+                prog.push(D::Let(name, e));
+            }
+        }
+        run_mprog(&ctx, &units, &mut out, &prog);
     }
     out.extra.retain(|k, _| !k.starts_with("seen:"));
     out.finish();
